@@ -11,7 +11,7 @@ from __future__ import annotations
 
 import re
 
-_MARK = re.compile(r"^([-*+>]|#+)$")
+_MARK = re.compile(r"^([-*+]|#+|=+|-{2,}|\*{3,}|_{3,})$|^>|^`{3,}|^~{3,}")
 _NUM = re.compile(r"^[0-9]+[.)]$")
 
 
